@@ -86,6 +86,7 @@ class Oracle:
         self.handed: set[float] = set()
         self.told: set[float] = set()
         self.covering = False
+        self.illegal = False      # a value was delivered for an abscissa that was never requested (outside C07)
         self.checked = {"partition": 0, "foreign": 0, "sums": 0}
 
     def err(self, sig, msg):
@@ -124,6 +125,8 @@ class Oracle:
             self.foreign = x not in self.handed and not self.belongs(x)
             if self.foreign:
                 self.pre = self.fingerprint()
+            elif x not in self.handed:
+                self.illegal = True
 
     def after(self, st):
         l = self.rec.l
@@ -132,7 +135,7 @@ class Oracle:
             self.err(sig, f"{st['op'][0]} raised {st['site']}")
             return
         if st["op"][0] == "ask":
-            dup = [x for x in st["out"] if x in self.handed or x in self.told]
+            dup = [x for x in st["out"] if x in self.handed or (x in self.told and not self.illegal)]
             if len(set(st["out"])) != len(st["out"]):
                 dup += [x for x in st["out"] if st["out"].count(x) > 1]
             if dup:
@@ -230,6 +233,8 @@ def drive(cfg, rng=None, mode=None, ops=None, max_tells=300, max_ops=160, **kw):
 
 def signature_of(cfg, ops):
     rec, orc = drive(cfg, ops=ops)
+    if orc.illegal:
+        return None          # the shrinker must stay inside the property's histories
     return orc.errors[0][0] if orc.errors else None
 
 
@@ -288,6 +293,7 @@ def run(chk: Check) -> int:
     f1_seen = set()
     orc_checked = {"partition": 0, "foreign": 0, "sums": 0}
     first_fail = {}
+    instr_broken = []
 
     def bump(d, k):
         d[k] = d.get(k, 0) + 1
@@ -328,9 +334,16 @@ def run(chk: Check) -> int:
         rng = chk.rng("case", k)
         cfg = I.draw_config(rng)
         mode = rng.choice(I.MODES)
-        rec, orc = drive(cfg, rng=rng, mode=mode, max_tells=max_tells, max_ops=max_ops)
+        try:
+            rec, orc = drive(cfg, rng=rng, mode=mode, max_tells=max_tells, max_ops=max_ops)
+        except I.InstrumentationError as e:
+            instr_broken.append((k, str(e)))
+            continue
         if rec.steps:
             add(cfg, rec, orc, f"seed{chk.seed}/{k}", mode)
+    if instr_broken:
+        chk.broke("correspondence", "run-time instrumentation of IntegratorLearner no longer fits the code "
+                  f"({len(instr_broken)} cases)", instr_broken[:3])
     # long runs of a divergent integrand (like the suite's fdiv) with few tasks reach DivergentIntegralError
     for k in range(3 if chk.quick else 24):
         rng = chk.rng("div", k)
